@@ -8,6 +8,7 @@ Import ListNotations.
 From TF Require Import Model.Dispatch Proofs.Dispatch.
 From Coq Require ZArith.
 From TF Require Model.Sched Proofs.Sched Gen.SchedUse Proofs.SchedUse.
+From TF Require Model.Sidecar Model.Resume Proofs.DispatchPlan.
 
 (* every index of the main pass is decided in order, exactly once, as either a
    hand-out or a skip; a skip only happens when the plan is known, the chunk is
@@ -188,3 +189,40 @@ Qed.
 Print Assumptions C17_files_usage_is_source.
 
 End Usage.
+
+(* ------------------------------------------------------------------------- *)
+(* "chunks the receiver reported as present below the verification point are not
+   sent once the report is known": with the report applied before the first
+   hand-out, EVERY schedule of any number of workers that runs the scan to its end
+   hands out exactly the chunks the plan does not skip, each once - which is the
+   "main pass" the resume model (Model/Resume.v: C04, C06) assumes of the sender,
+   here for the report's own byte bitmap. *)
+Module Bridge.
+Import ZArith TF.Proofs.DispatchPlan.
+
+Theorem C17_plan_first_sends_main_pass : forall n bm force evs,
+  wf_run (init n) g0 (PlanSet bm force :: evs) ->
+  let '(s, g) := grun (init n) g0 (PlanSet bm force :: evs) in
+  nextChunk s = n ->
+  NoDup (sentl g) /\
+  forall i, In i (sentl g) <-> (i < n)%nat /\ plan_skips (Some (bm, force)) i = false.
+Proof. exact plan_first_sends_main_pass. Qed.
+Print Assumptions C17_plan_first_sends_main_pass.
+
+Theorem C17_dispatch_realises_resume_main_pass : forall (n : nat) (pl : TF.Model.Resume.plan) evs,
+  TF.Model.Resume.pl_bits pl = Z.of_nat n -> (0 <= TF.Model.Resume.pl_force pl)%Z ->
+  wf_run (init n) g0 (PlanSet (to_bools (TF.Model.Resume.pl_bitmap pl) (TF.Model.Resume.pl_bits pl)) (Z.to_nat (TF.Model.Resume.pl_force pl)) :: evs) ->
+  let '(s, g) := grun (init n) g0 (PlanSet (to_bools (TF.Model.Resume.pl_bitmap pl) (TF.Model.Resume.pl_bits pl)) (Z.to_nat (TF.Model.Resume.pl_force pl)) :: evs) in
+  nextChunk s = n ->
+  NoDup (sentl g) /\
+  forall i : nat, In i (sentl g) <-> In (Z.of_nat i) (TF.Model.Resume.main_pass (Z.of_nat n) (Some pl)).
+Proof. exact dispatch_realises_main_pass. Qed.
+Print Assumptions C17_dispatch_realises_resume_main_pass.
+
+(* non-vacuity: 4 chunks, chunks 0 and 2 reported, verification point 3, two
+   workers: the scan hands out 1 and 3 *)
+Example C17_bridge_example :
+  let evs := [PlanSet [true; false; true; false] 3%nat; Take; Take; Finish; Take; Finish] in
+  wf_run (init 4) g0 evs /\ nextChunk (fst (grun (init 4) g0 evs)) = 4%nat /\ sentl (snd (grun (init 4) g0 evs)) = [1; 3]%nat.
+Proof. vm_compute. repeat split; auto. Qed.
+End Bridge.
